@@ -1,9 +1,34 @@
 """C06 - a step fails exactly when the real CPU would fault."""
+import random
+
+import c08
+import memcommon as mcm
 import vlib
 import x86common as xc
 
 PROP = "C06"
 OWNS = lambda c: c.startswith("out-")
+
+
+def _mine(key, a, e):
+    """of the memory-history verdicts, C06 owns the outcome of GUEST accesses: a completed access to unmapped memory, a
+    completed store to non-writable memory, a refused or crashing access the CPU would complete"""
+    if a.get("op") != "step" or "guest" not in a:
+        return None
+    comps = key.rsplit("/", 1)[-1].split("+")
+    kind = a["guest"]["kind"]
+    mine = [c for c in comps if c.endswith("-out-of-bounds-accepted") or c.endswith("-crash") or c.endswith("-err")
+            or (c.endswith("-permission-ignored") and kind in ("store", "sti", "rmw", "push"))]
+    return f"history/{a['guest']['t']}/{'+'.join(sorted(mine))}" if mine else None
+
+
+def history_phase(rep, seed, wd, quick):
+    """the mapping a fault depends on is a product of the machine's history: areas shrunk, grown again and re-protected.
+    Guest accesses inside / across / beyond the current end of such areas, judged by Trace_Memory (Memory.tla)."""
+    rng = random.Random(seed + 77)
+    scs = c08.shrink_regrow_scenarios(rng, 150 if quick else 3000)
+    nev, nsc, _ = mcm.validate(scs, wd, "hist", rep, 8 if quick else 14, keyfn=_mine)
+    return nev, nsc
 
 
 def run(tier, seed):
@@ -14,14 +39,29 @@ def run(tier, seed):
         q = tier == "quick"
         res = xc.judge(rep, "fault", 14 if q else 280, seed + 5000, wd, "f", OWNS, jobs=8 if q else 14)
         xc.judge(rep, "data", 6 if q else 100, seed + 5000, wd, "d", OWNS, res=res)
+        hev, hsc = history_phase(rep, seed, wd, q)
         rep.cov["samples"] = [{"families": ["fault", "data"], "example": sorted(res.distinct)[:3]}]
         xc.finish_cov(rep, res, mc, "DIV/IDIV with dividends built as q*d+r for q at the representability boundary (and zero divisors); every "
                       "memory-capable form with its operand in read-write, read-only, unmapped (hole, page 0), straddling-the-end, exactly-fitting "
-                      "and misaligned memory; natively the fault is the signal that kills the worker (SIGFPE / SIGSEGV).")
+                      "and misaligned memory; natively the fault is the signal that kills the worker (SIGFPE / SIGSEGV).  "
+                      f"Plus {hsc} shrink/regrow histories ({hev} events) with guest accesses inside/across/beyond the current end of a resized "
+                      "area, judged by Memory.tla through Trace_Memory.")
+        rep.cov["history_events_validated"] = hev
         return rep.finish()
     finally:
         vlib.cleanup(wd)
 
 
 def replay(path, seed):
+    import json
+    case = json.load(open(path))["case"]
+    if "scenario" in case:
+        rep = vlib.Report(PROP, "quick", seed, "model_checking")
+        wd = vlib.workdir("c06r")
+        try:
+            mcm.validate([case["scenario"]], wd, "replay", rep, 1, keyfn=_mine)
+            rep.cov.update({"states": 1, "transitions": 1, "traces_validated_against_impl": 1, "samples": [case["scenario"]["id"]]})
+            return rep.finish()
+        finally:
+            vlib.cleanup(wd)
     return xc.std_replay(PROP, path, seed, OWNS)
